@@ -11,6 +11,15 @@ use std::collections::{BTreeMap, BTreeSet};
 pub type Outcome<F> = Result<(Vec<F>, Value), String>;
 type Variant<'a, F> = (&'static str, Box<dyn Fn(&mut Vec<F>) -> Value + 'a>);
 
+fn intern(s: &str) -> &'static str {
+    use std::sync::{Mutex, OnceLock};
+    static T: OnceLock<Mutex<std::collections::HashMap<String, &'static str>>> = OnceLock::new();
+    let mut m = T.get_or_init(|| Mutex::new(Default::default())).lock().unwrap();
+    if let Some(x) = m.get(s) { return x; }
+    let l: &'static str = Box::leak(s.to_string().into_boxed_str());
+    m.insert(s.to_string(), l);
+    l
+}
 fn idx(ev: &Value, k: &str) -> usize {
     ev[k].as_u64().unwrap_or_else(|| panic!("event field {k} missing in {ev}")) as usize - 1
 }
@@ -194,6 +203,21 @@ pub fn variants<'a, F: Elem>(ev: &'a Value, big: bool) -> Vec<Variant<'a, F>> {
             let d = idx(ev, "d");
             var!("legendre", |r| json!(match r[d].legendre() { LegendreSymbol::Zero => 0, LegendreSymbol::QuadraticResidue => 1, LegendreSymbol::QuadraticNonResidue => -1 }));
             var!("legendre_preds", |r| { let l = r[d].legendre(); json!(if l.is_zero() { 0 } else if l.is_qr() { 1 } else if l.is_qnr() { -1 } else { 99 }) });
+        }
+        "norm" | "conj" | "mul_base" | "sparse" | "cyc_sq" | "cyc_inv" | "cyc_exp" => {
+            // type-specific tower operations: the variants are whatever the concrete type offers (elem.rs)
+            let d = idx(ev, "d");
+            let names: Vec<String> = F::one().extra(op, ev, big).into_iter().map(|x| x.0).collect();
+            for (k, name) in names.into_iter().enumerate() {
+                let is_norm = op == "norm";
+                v.push((intern(&name), Box::new(move |r: &mut Vec<F>| {
+                    let res = r[d].extra(op, ev, big).swap_remove(k).1;
+                    match res {
+                        Ok(val) => if is_norm { val } else { r[d] = F::from_abs(&val, big); Value::Null },
+                        Err(e) => panic!("{}", e),
+                    }
+                })));
+            }
         }
         "sqrt" => {
             let d = idx(ev, "d");
@@ -430,14 +454,52 @@ pub fn record<F: Elem>(cfg: &str, seed: u64, n: usize, out: &mut dyn std::io::Wr
     };
     // budget (in base-field multiplications on the validator side) for pow / Frobenius events
     let mut heavy_budget: u64 = 3_000_000 + 2_000 * n as u64;
+    let mut pending_cyc: Option<usize> = None;
+    let mut forced: Option<Value> = None;
+    let mut cyc_value: Option<F> = None;
     let mut step = 0usize;
     while step < n {
         step += 1;
         let d = rng.below(K as u64) as usize;
         let s = rng.below(K as u64) as usize;
         // choose the next event
-        let choice = rng.below(100);
+        let mut choice = rng.below(100);
+        if let Some(c) = pending_cyc.take() {
+            // the register holds a freshly loaded element of the cyclotomic subgroup: exercise the fast paths on it
+            let nl4 = 64 * (1 + rng.below(4));
+            let e = match rng.below(8) { 0 => BigUint::from(0u32), 1 => BigUint::from(1u32), 2 => BigUint::from(u64::MAX), 3 => BigUint::from(1u32) << 64, 4 => BigUint::from(rng.below(1 << 20)), _ => rng.biguint_below(&(BigUint::from(1u32) << nl4)) };
+            let ev = match rng.below(4) { 0 => json!({"op": "cyc_sq", "d": c + 1}), 1 => json!({"op": "cyc_inv", "d": c + 1}), _ => json!({"op": "cyc_exp", "d": c + 1, "e": num_to_json(&e, true)}) };
+            forced = Some(ev);
+            choice = 1000;
+        }
         let mut ev: Value = match choice {
+            1000 => forced.take().unwrap(),
+            93..=99 if !is_prime => {
+                let shape = F::shape();
+                let top = shape.len();
+                match rng.below(7) {
+                    0 => json!({"op": "norm", "d": d + 1}),
+                    1 => if shape[top - 1] == 2 { json!({"op": "conj", "d": d + 1}) } else { json!({"op": "norm", "d": d + 1}) },
+                    2 | 3 => { let j = rng.below(top as u64) as usize; json!({"op": "mul_base", "d": d + 1, "j": j, "s": random_abs(&mut rng, &shape[..j], &p, &alpha)}) }
+                    4 | 5 => {
+                        let (lvl, sets): (usize, Vec<Vec<u64>>) = if top >= 2 && shape[top - 1] == 3 { (top - 1, vec![vec![0, 1], vec![1]]) }
+                            else if top >= 2 && shape[top - 2] == 3 { (top - 2, vec![vec![0, 3, 4], vec![0, 1, 4]]) } else { (0, vec![]) };
+                        if sets.is_empty() { continue }
+                        let sl = rng.pick(&sets).clone();
+                        let cs: Vec<Value> = sl.iter().map(|_| random_abs(&mut rng, &shape[..lvl], &p, &alpha)).collect();
+                        json!({"op": "sparse", "d": d + 1, "slots": sl, "cs": cs}) }
+                    _ => {
+                        // load an element of the cyclotomic subgroup: y^((p^n - 1) / Phi_n(p)), computed by the code under test and
+                        // checked for membership by the specification before the fast paths are applied to it
+                        let n = extdeg as u32;
+                        let pn = p.pow(n) - 1u32;
+                        let phi = match n { 2 => &p + 1u32, 3 => &p * &p + &p + 1u32, 4 => &p * &p + 1u32, 6 => &p * &p - &p + 1u32, 12 => p.pow(4) - &p * &p + 1u32, _ => continue };
+                        let y = random_elem::<F>(&mut rng, &alpha);
+                        if y.is_zero() { continue }
+                        cyc_value = Some(y.pow((pn / phi).to_u64_digits()));
+                        pending_cyc = Some(d);
+                        json!({"op": "load", "d": d + 1}) }
+                } }
             0..=14 => json!({"op": "load", "d": d + 1}),
             15..=24 => json!({"op": "add", "d": d + 1, "s": s + 1}),
             25..=32 => json!({"op": "sub", "d": d + 1, "s": s + 1}),
@@ -519,14 +581,15 @@ pub fn record<F: Elem>(cfg: &str, seed: u64, n: usize, out: &mut dyn std::io::Wr
         let mut failure: Option<String> = None;
         if op == "load" {
             // correlated operands now and then
-            regs[d] = match rng.below(8) {
+            regs[d] = if let Some(c) = cyc_value.take() { c } else { match rng.below(8) {
                 0 => regs[s],
                 1 => { let x = regs[s].to_abs(true).ok(); match x { Some(_) => F::from_coords(&coords_neg::<F>(&regs[s])), None => random_elem::<F>(&mut rng, &alpha) } }
                 _ => random_elem::<F>(&mut rng, &alpha),
-            };
+            } };
         } else {
             let evc = ev.clone();
             let vs = variants::<F>(&evc, true);
+            if vs.is_empty() { continue }
             let k = rng.below(vs.len() as u64) as usize;
             let (name, f) = &vs[k];
             ev["via"] = json!(name);
@@ -542,7 +605,7 @@ pub fn record<F: Elem>(cfg: &str, seed: u64, n: usize, out: &mut dyn std::io::Wr
             let named = ev.get("d").and_then(|x| x.as_u64()) == Some(i as u64 + 1)
                 || ev.get("ds").and_then(|x| x.as_array()).map_or(false, |a| a.iter().any(|x| x.as_u64() == Some(i as u64 + 1)));
             let changed = regs[i] != before[i] || regs[i].raw_json() != before[i].raw_json();
-            let is_query = ["is_zero", "is_one", "eq", "cmp", "legendre", "into_bigint"].contains(&op.as_str());
+            let is_query = ["is_zero", "is_one", "eq", "cmp", "legendre", "into_bigint", "norm"].contains(&op.as_str());
             if changed || (named && !is_query && !(op == "sqrt" && ret == json!("none"))) {
                 w.push(json!([i + 1, regs[i].raw_json()]));
             }
@@ -559,6 +622,14 @@ pub fn record<F: Elem>(cfg: &str, seed: u64, n: usize, out: &mut dyn std::io::Wr
     }
     rep.transitions = n as u64;
     rep
+}
+
+/// abstract element of the subfield whose tower has the given shape (degrees from the bottom), random / boundary coordinates
+fn random_abs(rng: &mut Rng, shape: &[usize], p: &BigUint, alpha: &[BigUint]) -> Value {
+    match shape.split_last() {
+        None => num_to_json(&random_coord(rng, p, alpha), true),
+        Some((d, rest)) => Value::Array((0..*d).map(|_| random_abs(rng, rest, p, alpha)).collect()),
+    }
 }
 
 /// coordinates of -x computed with num-bigint from the decoded coordinates of x
